@@ -18,6 +18,7 @@ var propCounts = map[string][2]int{
 	"TestPropMutateMVT":     {20000, 1500000},
 	"TestPropDeepChains":    {2400, 90000},
 	"TestPropLongFlat":      {1000, 60000},
+	"TestPropMVTCommands":   {16000, 800000},
 }
 
 func assumptions() {
@@ -121,3 +122,8 @@ func TestPropDeepChains(t *testing.T) {
 // TestPropLongFlat: long (1-60 KiB) valid encodings with many points or many small members, at
 // most one byte-level mutation: the linear coefficient of every decoder's allocation.
 func TestPropLongFlat(t *testing.T) { runPropF(t, genLong) }
+
+// TestPropMVTCommands: structurally valid tiles whose geometry integer stream is hostile at grammar
+// level (genMVTCommands), for the geometry types POINT, LINESTRING, POLYGON, UNKNOWN and an
+// undefined one, plain and gzipped.
+func TestPropMVTCommands(t *testing.T) { runProp(t, "mvt", genMVTCommandTile) }
